@@ -22,7 +22,7 @@ NAMES = [d.name for d in DECLS]
 TEXT1 = ('i = 5\ns = "str"\nil = {1, 2, 3}\nsl += {"x"}\nfl = 2.5\np = obj\nfn(one, "two")\nsec a { x = 1 xs = "s" xl += {5} sub { y = 1 yl = {} } sub { } inner { q = "w" } }\n'
          'sec b { }\nsec a { x = 2 }\nuniq t { u = 1 }\none { z = 2 deep { d += {"y"} } }\nkv { alpha = "1" beta = two alpha = "3" }\nnd { w = "set" }\nnd { }\n')
 TEXT2 = '# note one\ni = 6\n/* note two */\ns = "annotated"\nil = {7}\n// list\nsl = first\ninclude("inc1.conf")\nsec t { include("secinc.conf") }\n'
-FILES = {'inc1.conf': 'i = 2\ninclude("inc2.conf")\n', 'inc2.conf': 'sec deep { xs = "two" }\n', 'secinc.conf': 'xs = "inner"\nxl += {9}\n'}
+FILES = {'sec1.conf': 'one { z = 2 }\nsec a { x = 1 }\n', 'sec2.conf': 'one { zs = "two" deep { } }\nsec a { }\n', 'inc1.conf': 'i = 2\ninclude("inc2.conf")\n', 'inc2.conf': 'sec deep { xs = "two" }\n', 'secinc.conf': 'xs = "inner"\nxl += {9}\n'}
 
 RULE = ('%d workloads that together call every public entry point (cfg_init with parsed defaults and nested sections; parse with lists / sections / key=value / functions / includes / annotations; '
         'every setter family; cfg_setmulti; cfg_setopt; cfg_addtsec; cfg_rm*sec; annotations; search path and tilde; by-path getters with quoted titles; print; callback registration by path); for each '
@@ -73,8 +73,12 @@ def workloads(sid):
     W['paths'] = init + ['parse_buf 0 %s' % hx(TEXT1), '@OOM', 'getopt 0 %s' % hx("sec='a'|sub=1|ys"), 'getsec 0 %s' % hx('sec=b'), 'get 0 str %s 0' % hx("sec='a'|inner|q"),
                          'get 0 size %s 0' % hx('sec=a|xl'), 'getsec 0 %s' % hx("uniq='t'"), 'gettsec 0 %s %s' % (hx('sec'), hx('b')), 'getopt 0 %s' % hx("sec='bad"),
                          'set_validate_func 0 %s 1' % hx('one|deep|d'), 'set_validate_func2 0 %s 1' % hx('one|zs'), 'set_print_func 0 %s 1' % hx('sec=a|x')]
-    W['print'] = init + ['parse_buf 0 %s' % hx(TEXT1), 'setcomment 0 %s %s' % (hx('i'), hx('note')), '@OOM', 'print 0', 'print_indent 0 2', 'opt_print %s' % optloc('sl'), 'init 1 %d %d' % (sid, F_COMMENTS),
+    W['print'] = init + ['parse_buf 0 %s' % hx(TEXT1), 'setcomment 0 %s %s' % (hx('i'), hx('note')), 'setstr 0 %s %s' % (hx('s'), hx('long "value" ' * 40)),
+                         'setstr 0 %s %s 0' % (hx('sl'), hx('x\\y$z' * 60)), 'setcomment 0 %s %s' % (hx('f'), hx('a long annotation ' * 30)), '@OOM', 'print 0', 'print_indent 0 2', 'opt_print %s' % optloc('sl'), 'init 1 %d %d' % (sid, F_COMMENTS),
                          'print_parse 0 1']
+    # a plain section opened from one file and again from another (its source name changes)
+    W['reopen-other-file'] = init + ['parse_file 0 %s' % hx('sec1.conf'), '@OOM', 'parse_file 0 %s' % hx('sec2.conf'), 'parse_buf 0 %s' % hx('one { deep { d = {y} } }\n'),
+                                     'parse_file 0 %s' % hx('sec1.conf')]
     W['reparse-titles'] = init + ['parse_buf 0 %s' % hx('sec a { x = 1 sub { } }\nuniq t { }\n'), '@OOM', 'parse_buf 0 %s' % hx('sec a { xs = "again" sub { y = 2 } }\nuniq t { }\nsec c { }\n')]
     return W
 
@@ -191,6 +195,14 @@ def judge(spec, events, death):
                     v.bad('alloc=%s:effect=silent-wrong-resolution:during-%s' % (site, events[hit]['op']), 'workload %s, allocation #%d (%s) fails during %s: every call reports success, yet a name resolves to %r instead of %r' % (
                         spec['w'], spec['k'], site, events[hit]['op'], g_, r_))
                     break
+    # a print call that reports success has written the whole text
+    if ref and hit is not None and 'prints' in ref:
+        pe = [x for x in events[:hit] if x.get('ev') == 'print']
+        if pe and events[hit]['op'].startswith(('print', 'opt_print')) and pe[-1].get('rc') == 0:
+            k = len(pe) - 1
+            if k < len(ref['prints']) and pe[-1]['out'] != ref['prints'][k]:
+                v.bad('alloc=%s:effect=silent-incomplete-print:during-%s' % (site, events[hit]['op']), 'workload %s, allocation #%d (%s) fails during %s: the call returns success, yet the text written differs from the fault-free run' % (
+                    spec['w'], spec['k'], site, events[hit]['op']))
     bad_rc = [x for x in events if x.get('ev') == 'r' and x.get('rc') not in (0, -1, 1)]
     if bad_rc:
         v.bad('alloc=%s:effect=undocumented-return' % site, 'undocumented return value %r' % bad_rc[:2])
@@ -242,7 +254,7 @@ def run(tier, seed, bindirs):
         if end['live']:
             raise core.HarnessError('fault-free run of workload %s leaks' % w)
         ref[w] = {'rcs': [(x.get('op'), x.get('rc')) for x in evs if x.get('ev') == 'r'], 'looks': [x.get('pos') for x in evs if x.get('ev') == 'look'],
-                  'paths': [x.get('v') for x in evs if x.get('ev') == 'path'],
+                  'paths': [x.get('v') for x in evs if x.get('ev') == 'path'], 'prints': [x.get('out') for x in evs if x.get('ev') == 'print'],
                   'dumps': [json.dumps(x['tree'], sort_keys=True) for x in evs if x.get('ev') == 'dump']}
     # generated workloads (random schema / text / setter sequence), every k of each
     rng = core.seeded_rng(seed, 'c18')
